@@ -345,7 +345,8 @@ def random_reference(rng, near_lo=-5.0):
         return kind, 1, [], rng.uniform(-1, 1, (1, 3))
     if kind == 'two':
         p = rng.uniform(-1, 1, (1, 3))
-        return kind, 2, [(1, 2)], np.vstack([p, p + _unit(rng) * rng.uniform(0.1, 0.4)])
+        # two beads, bonded or not (an ion pair, a topology that lists no bond): the axis is the line through the two atoms
+        return kind, 2, ([(1, 2)] if rng.random() < 0.5 else []), np.vstack([p, p + _unit(rng) * rng.uniform(0.1, 0.4)])
     n = int(rng.integers(3, 41))
     order = rng.permutation(n)            # labels are shuffled so that "lowest numbered neighbours" varies
     bonds = []
@@ -472,6 +473,9 @@ def random_trace(seed, tid, workdir, props):
             u = u / L
             w = np.cross(u, _unit(rng)) * rng.uniform(0.0, 0.3)
             tpos[t] = 0.5 * (pos[a] + pos[b]) + w + u * 10.0 ** (-rng.uniform(3.4, 5.5))
+    if nt >= 4 and n >= 3 and anchors:
+        # a target atom almost, but not exactly, on its anchor (a few 1e-9 nm away): a point like any other
+        tpos[nt - 2] = pos[anchors[int(rng.integers(0, len(anchors)))]] + _unit(rng) * 5e-9
     # a branched anchor whose frame neighbours are nearly aligned gets a target atom of its own (right next to it)
     for a in anchors:
         if n >= 4 and len(nb[a]) >= 3 and _sin_at(pos, *triple[a]) < 0.1:
@@ -494,7 +498,13 @@ def random_trace(seed, tid, workdir, props):
         return out_
     res_ref, res_tgt = blocks(n, 'RR'), blocks(nt, 'RT')
     refmol = synth.make_molecule(os.path.join(workdir, 'rr'), 'RREF', names, bonds, np.round(pos, 3), residues=res_ref)
-    tgt = synth.make_molecule(os.path.join(workdir, 'rt'), 'RTGT', ['T%d' % (i + 1) for i in range(nt)], [],
+    # the target is a molecule like any other: it may have bonds and hydrogen-like atom names (neither enters the map)
+    tnames = ['T%d' % (i + 1) for i in range(nt)]
+    tbonds = []
+    if rng.random() < 0.4:
+        tnames = [('H%d' if rng.random() < 0.5 else 'C%d') % (i + 1) for i in range(nt)]
+        tbonds = [(int(rng.integers(0, i)) + 1, i + 1) for i in range(1, nt)]
+    tgt = synth.make_molecule(os.path.join(workdir, 'rt'), 'RTGT', tnames, tbonds,
                               np.round(tpos, 3), residues=res_tgt)
     refmol.atoms_positions = pos
     tgt.atoms_positions = tpos
